@@ -213,7 +213,9 @@ def mutate_listing(rng, lst):
 
 
 # ------------------------------------------------------------------ trees to materialise on disk
-XATTRS = [(b"user.a", b"1"), (b"user.b", b""), (b"trusted.t", b"\x00\xff"), (b"security.s", b"x"), (b"user.long", b"v" * 40)]
+CAP = bytes([1, 0, 0, 2, 0, 0x20, 0, 0, 0, 0, 0, 0, 0, 0, 0, 0, 0, 0, 0, 0])   # vfs_cap_data v2: cap_net_raw+p
+XATTRS = [(b"user.a", b"1"), (b"user.b", b""), (b"trusted.t", b"\x00\xff"), (b"security.s", b"x"), (b"user.long", b"v" * 40),
+          (b"security.capability", CAP)]
 
 
 def disk_tree(rng, max_entries=30, max_depth=5, types=("dir", "file", "symlink", "fifo", "chr", "blk", "hardlink", "sock"),
@@ -267,6 +269,8 @@ def disk_tree(rng, max_entries=30, max_depth=5, types=("dir", "file", "symlink",
             xs = []
             for k, v in rng.sample(XATTRS, rng.randint(1, 2)):
                 if k.startswith(b"user.") and e["t"] not in ("file", "dir"):
+                    continue
+                if k == b"security.capability" and e["t"] != "file":
                     continue
                 xs.append([hx(k), hx(v)])
             if xs:
